@@ -49,6 +49,11 @@ def imp(src, dst):
     /repo HEAD: 3-way merge per touched file, conflicts resolved in favour of the mutant's lines."""
     src, dst = os.path.abspath(src), os.path.abspath(dst)
     os.makedirs(dst, exist_ok=True)
+    if sh("git -C /repo apply --check %s/patch.diff" % src).returncode == 0:
+        for n in ("patch.diff", "demo.py", "meta.json"):
+            shutil.copy(os.path.join(src, n), os.path.join(dst, n))
+        print("imported %s -> %s (applies to HEAD as is)" % (src, dst))
+        return 0
     wt = tempfile.mkdtemp(prefix="mw-")
     os.rmdir(wt)
     wo = wt + "-orig"
